@@ -11,6 +11,7 @@ import PyYetiVerif.Props.C13Uset
 import PyYetiVerif.Props.C13Set
 import PyYetiVerif.Props.C13ValuesTab
 import PyYetiVerif.Props.C13SetIff
+import PyYetiVerif.Props.C13FileOK
 #print axioms PyYetiVerif.C13.thru_roundtrip
 #print axioms PyYetiVerif.C13.thru_maximal
 #print axioms PyYetiVerif.C13.nasints_layout
@@ -89,3 +90,7 @@ import PyYetiVerif.Props.C13SetIff
 #print axioms PyYetiVerif.C13.tabled1_all_doubles
 #print axioms PyYetiVerif.C13.tabled1_default_eq_before_fix
 #print axioms PyYetiVerif.C13.tabled1_default_differs_iff
+#print axioms PyYetiVerif.C13.file_ok_of_blocks
+#print axioms PyYetiVerif.C13.written_file_ok
+#print axioms PyYetiVerif.C13.typed_readers_independent_written
+#print axioms PyYetiVerif.C13.readers_independent_written
